@@ -37,13 +37,37 @@ structure PoolEnv where
   noPinning : Option String
   /-- `num_cpus::get_physical()` -/
   physical : Nat
+  /-- the crate is built with its `env-var-compat` feature -/
+  compat : Bool := false
+  /-- `OMP_NUM_THREADS` (read only with `env-var-compat`) -/
+  ompThreads : Option String := none
+  /-- `OPENBLAS_NUM_THREADS` (read only with `env-var-compat`) -/
+  openblasThreads : Option String := none
+  /-- `CFAVML_DEBUG`: switches the diagnostic printed for an unparsable thread count; read once, by `load_debug`,
+  never while another variable is being read -/
+  debug : Option String := none
 
-/-- `config_num_threads()` (without the `env-var-compat` feature): the variable if it parses, else the
-physical core count -/
-def configNumThreads (e : PoolEnv) : Nat :=
+/-- the variable `config_num_threads()` takes the thread count from: the first one that is set among
+`CFAVML_NUM_THREADS`, and — with the `env-var-compat` feature — `OMP_NUM_THREADS`, `OPENBLAS_NUM_THREADS` -/
+def requestedVar (e : PoolEnv) : Option String :=
   match e.numThreads with
+  | some v => some v
+  | none =>
+    if e.compat then
+      match e.ompThreads with
+      | some v => some v
+      | none => e.openblasThreads
+    else none
+
+/-- `config_num_threads()`: the selected variable if it parses, else the physical core count (a variable that is set
+but does not parse does *not* fall through to the next one) -/
+def configNumThreads (e : PoolEnv) : Nat :=
+  match requestedVar e with
   | some v => (parseUsize v).getD e.physical
   | none => e.physical
+
+/-- `load_debug`'s `SHOULD_LOG`: whether the diagnostic is printed -/
+def shouldLog (e : PoolEnv) : Bool := configBool e.debug
 
 /-- the `num_threads` handed to rayon by `create_pool()` (after the fix 3dda54f: zero means "physical") -/
 def poolThreads (e : PoolEnv) : Nat :=
